@@ -1,1 +1,8 @@
 -- modules of work area Silence (add imports here)
+import AM.Model.Silence
+import AM.Model.Silencer
+import AM.Lemmas.SilenceStore
+import AM.Props.C09
+import AM.Props.C12
+import AM.Lemmas.SilencerInv
+import AM.Props.C02
